@@ -33,6 +33,7 @@ RULE = ("cases derived from VERIF_SEED by tools/props/C16.py: exhaustive small s
         "distinct = distinct case payload; non-trivial = implementation output contains a non-zero value and is not an exception")
 
 TOL = F(1, 10 ** 10)
+MAXOUT = 200000
 
 # ------------------------------------------------------------------ generators
 def dd_values(r, n, pat_rows, style):
@@ -495,6 +496,11 @@ def run(ctx, cases_override=None):
             if out is None or out.startswith(("CRASH", "UNSUPPORTED")) or (op in ("cm", "skyb") and out.startswith("EXC")):
                 fails.append(dict(kind="counterexample", case=l, impl=out, model=model.get(cid), op=op, size=len(l),
                                   theorem="C16: %s must terminate normally on valid input" % op))
+            continue
+        if len(out) > MAXOUT:
+            # garbage (e.g. values read out of bounds): do not feed megabyte rationals to the oracle stage
+            fails.append(dict(kind="counterexample", case=l, impl=out[:300] + "...", model=(model.get(cid) or "")[:300], op=op, size=len(l),
+                              theorem="C16: %s output is absurdly large (%d characters): garbage values" % (op, len(out))))
             continue
         tok = payload.split()
         if op in ("sky", "sky_t"):
